@@ -8,11 +8,15 @@ import (
 func genC17Bytes(tier string) (map[string]string, error) {
 	var sb strings.Builder
 	sb.WriteString(numericHeader)
+	sb.WriteString(fix128Helpers)
 	sb.WriteString("//verif:assume bytes: values satisfy the representation invariant; Int/UInt bounded by |x| < 2^128; the array-value layer and the length gate of the native function wrapper are outside (the gate's comparison is covered by the length assertions)\n")
 	types := convTypes()
 	for _, c := range types {
 		size := 8
 		w := 192
+		if c.Fix128 {
+			size = 16
+		}
 		if c.Int != nil {
 			size = c.Int.Bits / 8
 			switch c.Int.Bits {
